@@ -109,10 +109,16 @@ func (c *AdminOP)SetState(s StateDB){
 
 func (c *AdminOP) Run(input []byte) ([]byte, error) {
 	//[$len + $arg]
+	if len(input) < 32+20 {
+		return nil, fmt.Errorf("admin input too short: %d bytes", len(input))
+	}
 	dlen := new(big.Int).SetBytes(input[:32]).Uint64()
-	offset := dlen + 32
-	if int(offset) > len(input) {
-		offset = uint64(len(input))
+	offset := uint64(len(input))
+	if dlen < offset-32 { // dlen+32 < len(input), without overflow
+		offset = dlen + 32
+	}
+	if offset < 32+20 {
+		return nil, fmt.Errorf("admin data length too short: %d", dlen)
 	}
 	from := input[32:32+20]
 	data := input[32+20:offset]
